@@ -2,6 +2,11 @@
 #![allow(clippy::too_many_arguments, clippy::needless_range_loop, clippy::type_complexity)]
 
 pub mod c13;
+pub mod c14;
+#[path = "../../scheme/src/gad.rs"]
+pub mod gad;
+#[path = "../../scheme/src/sch.rs"]
+pub mod sch;
 pub mod c15;
 pub mod c20;
 
@@ -19,6 +24,7 @@ fn main() {
         let ctx = Ctx::from_args(&prop, &[]);
         let code = match prop.as_str() {
             "C13" => c13::replay(&ctx, &sub, &case),
+            "C14" => c14::replay(&ctx, &sub, &case),
             "C15" => c15::replay(&ctx, &sub, &case),
             "C20" => c20::replay(&ctx, &sub, &case),
             _ => {
@@ -34,6 +40,10 @@ fn main() {
         "C13" => {
             c13::run(&ctx);
             ctx.finish(c13::RULE, c13::ASSUMPTIONS, &[("edge_directed", 100), ("exhaustive_low_bytes", 1)])
+        }
+        "C14" => {
+            c14::run_all(&ctx);
+            ctx.finish(c14::RULE, &["table limbs are read through hook H2, the clear GLWE secret through hook H4", "the blind-path noise tolerance is a worst-case bound from the key parameters (every key error coefficient at its truncation bound); cases whose bound exceeds a quarter of the table resolution are run for crashes only and counted as vacuous", "the library's modulus switch is not mirrored: any rounding inside the window (1+|s|_1)/2+1 is accepted"], &[("ext>1", 100), ("all_rotations", 50), ("block_binary_extended", 50), ("standard_binary", 50), ("entry_checked", 50), ("wrap_around_sign", 10), ("modswitch_multi_limb", 50)])
         }
         "C15" => {
             c15::run(&ctx);
